@@ -27,6 +27,11 @@ pub struct SchedConvCase {
     /// unanswered — waits until the successor has been delivered
     #[serde(default)]
     pub hold_after_read: Option<usize>,
+    /// None: the whole client stream (and the half-close) is there before the server starts;
+    /// Some(delays): a client task sends segment k after a pause of delays[k % len] virtual ms
+    /// (0 = just a scheduling point), then pauses once more and half-closes
+    #[serde(default)]
+    pub feed: Option<Vec<u16>>,
     pub tape: Vec<u8>,
 }
 
@@ -103,21 +108,52 @@ pub fn run_sched_conv(sc: &SchedConvCase) -> SchedObs {
         let rendered = render(&sc.case.conv);
         let bytes = rendered.with_nonce(b"00000000");
         let (client, conn) = rt::mem::pair();
-        // the whole client stream is queued up front, in the generated segmentation
+        // the client stream in the generated segmentation: queued up front, or sent by a client
+        // task with pauses
         let mut cuts: Vec<usize> = sc.cuts.iter().map(|c| (*c).min(bytes.len())).collect();
         cuts.sort();
         cuts.dedup();
+        let mut segments: Vec<Vec<u8>> = vec![];
         let mut from = 0;
         for c in cuts.into_iter().chain(std::iter::once(bytes.len())) {
             if c > from {
-                client.send(&bytes[from..c]);
+                segments.push(bytes[from..c].to_vec());
                 from = c;
             }
         }
         let half_close = sc.case.script.iter().any(|s| matches!(s, Step::HalfClose));
-        if half_close {
-            client.close_write();
-        }
+        let client_task = match &sc.feed {
+            None => {
+                for seg in &segments {
+                    client.send(seg);
+                }
+                if half_close {
+                    client.close_write();
+                }
+                None
+            }
+            Some(delays) => {
+                let (cl, delays) = (client.clone(), delays.clone());
+                Some(shuttle::thread::spawn(move || {
+                    let pause = |k: usize| {
+                        let d = if delays.is_empty() { 0 } else { delays[k % delays.len()] };
+                        if d > 0 {
+                            rt::thread::sleep(std::time::Duration::from_millis(d as u64));
+                        } else {
+                            rt::thread::yield_now();
+                        }
+                    };
+                    for (k, seg) in segments.iter().enumerate() {
+                        pause(k);
+                        cl.send(seg);
+                    }
+                    pause(segments.len());
+                    if half_close {
+                        cl.close_write();
+                    }
+                }))
+            }
+        };
         let n = sc.case.conv.reqs.len();
         let slots = Arc::new(Slots { st: rt::sync::Mutex::new(SlotSt { slots: (0..n).map(|_| None).collect(), unknown: vec![], conn_done: false, entered: vec![false; n], arrived: vec![false; n] }), cv: rt::sync::Condvar::new() });
         let sink: Arc<StdMutex<Vec<Delivered>>> = Arc::new(StdMutex::new(vec![]));
@@ -243,6 +279,9 @@ pub fn run_sched_conv(sc: &SchedConvCase) -> SchedObs {
             let _ = h.join();
         }
         ph2.store(3, Ordering::SeqCst);
+        if let Some(t) = client_task {
+            let _ = t.join();
+        }
         let _ = conn_task.join();
         ph2.store(4, Ordering::SeqCst);
         // requests nobody claimed (not part of the conversation, or never expected)
@@ -372,7 +411,7 @@ pub fn c01_strategy() -> BoxedStrategy<SchedConvCase> {
             let groups = partition_groups(n, mask);
             let own_tasks = groups.len() == n;
             let script = vec![Step::Send { from: 0, to: 0 }, Step::HalfClose];
-            SchedConvCase { case: ConvCase { conv, progs, script, transport: Transport::Mem }, groups, collect_first: false, enter_order: if own_tasks { order } else { None }, cuts, hold_after_read: None, tape }
+            SchedConvCase { case: ConvCase { conv, progs, script, transport: Transport::Mem }, groups, collect_first: false, enter_order: if own_tasks { order } else { None }, cuts, hold_after_read: None, feed: None, tape }
         })
         .boxed()
 }
@@ -455,6 +494,13 @@ pub fn c11_strategy() -> BoxedStrategy<SchedConvCase> {
                 let has_body = !matches!(f, Framing::None);
                 // every method is read ahead alike (CONNECT, HEAD, OPTIONS, extension tokens …)
                 let method = if has_body { ["POST", "PUT", "PATCH", "DELETE"][(rk as usize + i) % 4] } else { ["GET", "HEAD", "CONNECT", "OPTIONS", "TRACE", "DELETE", "PURGE", "get"][(rk as usize / 7 + i * 3) % 8] };
+                // now and then the pipeline ends in a protocol-upgrade request (a websocket handshake
+                // behind ordinary requests): it is read ahead like any other
+                if i + 1 == n && !has_body && rk & 0x10 != 0 {
+                    conv.reqs.push(gen::build_req(i as u32, "GET".into(), String::new(), "HTTP/1.1", vec![Hdr::new("Host", "h")], Framing::Upgrade { rest: 0 }, None, 1, 0, Some(["Upgrade", "keep-alive, upgrade"][(rk as usize >> 5) % 2].to_string()), false));
+                    progs.push(Prog { read: ReadPlan::None, finish: Finish::Respond { status: 200, body_len: 5, declared: true, threshold: None } });
+                    continue;
+                }
                 conv.reqs.push(gen::build_req(i as u32, method.into(), String::new(), "HTTP/1.1", vec![Hdr::new("Host", "h")], f.clone(), None, 1, 0, None, false));
                 let read = if is_streamed(&f) {
                     // every entry point of std::io::Read must release the successor at end-of-body
@@ -479,7 +525,7 @@ pub fn c11_strategy() -> BoxedStrategy<SchedConvCase> {
                     // read the streamed body to its end, keep the request, take the successor
                     let mut groups: Vec<Vec<usize>> = vec![(0..=p).collect()];
                     groups.push((p + 1..n).collect());
-                    SchedConvCase { case, groups, collect_first: false, enter_order: None, cuts, hold_after_read: Some(p), tape }
+                    SchedConvCase { case, groups, collect_first: false, enter_order: None, cuts, hold_after_read: Some(p), feed: None, tape }
                 }
                 (Some(p), 2) if p + 1 < n => {
                     // answer the streamed one (its handler reads the body), successors follow: plain pipeline on two tasks;
@@ -495,7 +541,7 @@ pub fn c11_strategy() -> BoxedStrategy<SchedConvCase> {
                         }
                     }
                     let groups: Vec<Vec<usize>> = vec![(0..=p).collect(), (p + 1..n).collect()];
-                    SchedConvCase { case, groups, collect_first: false, enter_order: None, cuts, hold_after_read: None, tape }
+                    SchedConvCase { case, groups, collect_first: false, enter_order: None, cuts, hold_after_read: None, feed: None, tape }
                 }
                 _ => {
                     // collect `avail` requests before answering any
@@ -503,7 +549,7 @@ pub fn c11_strategy() -> BoxedStrategy<SchedConvCase> {
                     if avail < n {
                         groups.push((avail..n).collect());
                     }
-                    SchedConvCase { case, groups, collect_first: true, enter_order: None, cuts, hold_after_read: None, tape }
+                    SchedConvCase { case, groups, collect_first: true, enter_order: None, cuts, hold_after_read: None, feed: None, tape }
                 }
             }
         })
@@ -708,4 +754,73 @@ pub fn run_c12_withheld(wc: &WithheldCase) -> vcore::runner::Verdict {
         return fail(k, d);
     }
     Verdict::Pass(Good { nontrivial: Some(exec.stats.trace_hash), classes: vec![format!("framing:{}", framing_name(&wc.case.conv.reqs.last().unwrap().framing))], extra_evals: 0 })
+}
+
+// ------------------------------------------------------------------------------------------
+// C13 under the controlled scheduler: the same bytes, once all there (with the half-close) before
+// the server starts, once sent by a client task with pauses between the segments and before the
+// half-close.  Deliveries and the response stream must be the same.
+
+#[derive(Clone, Debug, Serialize, Deserialize)]
+pub struct PauseCase {
+    pub base: SchedConvCase,
+    /// pauses (virtual ms; 0 = scheduling point only) of the second run
+    pub delays: Vec<u16>,
+    /// schedule tape of the second run
+    pub tape2: Vec<u8>,
+}
+
+pub fn c13_pause_strategy() -> BoxedStrategy<PauseCase> {
+    (c01_strategy(), proptest::collection::vec(prop_oneof![2 => Just(0u16), 2 => Just(1u16), 1 => Just(50u16), 1 => Just(400u16)], 1..5), tape_strategy(160))
+        .prop_map(|(base, delays, tape2)| PauseCase { base, delays, tape2 })
+        .boxed()
+}
+
+fn blank_dates(out: &[u8]) -> Vec<u8> {
+    let mut v = Vec::with_capacity(out.len());
+    let mut i = 0;
+    while i < out.len() {
+        if out[i..].starts_with(b"\r\nDate: ") {
+            v.extend_from_slice(b"\r\nDate: X");
+            i += 8;
+            while i < out.len() && out[i] != b'\r' {
+                i += 1;
+            }
+        } else {
+            v.push(out[i]);
+            i += 1;
+        }
+    }
+    v
+}
+
+pub fn c13_pause_test(pc: &PauseCase) -> vcore::runner::Verdict {
+    use vcore::runner::{fail, Good, Verdict};
+    let a = run_sched_conv(&pc.base);
+    if let Some(v) = exec_trouble("C13", "pauses/all-at-once", &a) {
+        return v;
+    }
+    let mut second = pc.base.clone();
+    second.feed = Some(pc.delays.clone());
+    second.tape = pc.tape2.clone();
+    let b = run_sched_conv(&second);
+    if let Some(v) = exec_trouble("C13", "pauses/with-pauses", &b) {
+        return v;
+    }
+    let proj = |o: &Observation| -> (Vec<(Option<u32>, String, String, Vec<(String, String)>, Vec<u8>)>, Vec<u8>, bool) {
+        (o.delivered.iter().map(|d| (d.id, d.method.clone(), d.url.clone(), d.headers.clone(), d.body.clone())).collect(), blank_dates(&o.client), o.client_eof)
+    };
+    let (pa, pb) = (proj(&a.obs), proj(&b.obs));
+    if pa.0 != pb.0 {
+        return fail("C13/pauses/deliveries-differ", format!("all at once: {} requests delivered; with pauses {:?}: {}", pa.0.len(), pc.delays, pb.0.len()));
+    }
+    if pa.1 != pb.1 {
+        let at = pa.1.iter().zip(pb.1.iter()).position(|(x, y)| x != y).unwrap_or(pa.1.len().min(pb.1.len()));
+        return fail("C13/pauses/responses-differ", format!("the response streams differ at byte {} ({} bytes when everything incl. the half-close was there at the start, {} bytes with pauses {:?})", at, pa.1.len(), pb.1.len(), pc.delays));
+    }
+    if pa.2 != pb.2 {
+        return fail("C13/pauses/end-of-stream-differs", format!("{} vs {}", pa.2, pb.2));
+    }
+    let g = Good { nontrivial: Some(a.exec.stats.trace_hash ^ b.exec.stats.trace_hash.rotate_left(17)), classes: vec![], extra_evals: 1 };
+    Verdict::Pass(g.class(format!("n={}", pc.base.case.conv.reqs.len())).class_if(pc.delays.iter().any(|d| *d >= 50), "long-pause").class_if(b.exec.stats.clock_picks > 0, "virtual-time-passed"))
 }
